@@ -9,6 +9,7 @@ import (
 	"os"
 	"os/exec"
 	"path/filepath"
+	"sort"
 	"strings"
 	"sync"
 	"time"
@@ -137,63 +138,34 @@ func Solve(tr *TargetResult, opts *SolveOpts) []*OblResult {
 		return results
 	}
 	tag := hashOf(tr.Name, base)[:12]
-	// phase 1: incremental batch
-	batchT := 3
+	// phase 1: every obligation on its own with z3-new and a short timeout, in parallel
+	batchT := 4
 	if opts.TimeoutS < batchT {
 		batchT = opts.TimeoutS
 	}
-	var sb strings.Builder
-	fmt.Fprintf(&sb, "(set-option :timeout %d)\n", batchT*1000)
-	sb.WriteString(base)
-	for _, i := range pending {
-		fmt.Fprintf(&sb, "(push 1)\n(assert %s)\n(check-sat)\n(pop 1)\n", tr.Obls[i].Cond)
-	}
-	file := filepath.Join(opts.TmpDir, "b_"+tag+".smt2")
-	os.WriteFile(file, []byte(sb.String()), 0o644)
-	opts.acquire()
-	t0 := time.Now()
-	cctx, cancel := context.WithTimeout(context.Background(), time.Duration(batchT*len(pending)+20)*time.Second)
-	cmd := exec.CommandContext(cctx, "z3-new", file)
-	var out bytes.Buffer
-	cmd.Stdout = &out
-	cmd.Stderr = &out
-	cmd.Run()
-	cancel()
-	opts.release()
-	per := time.Since(t0).Seconds() / float64(len(pending))
-	var lines []string
-	for _, l := range strings.Split(out.String(), "\n") {
-		l = strings.TrimSpace(l)
-		if l == "unsat" || l == "sat" || l == "unknown" || l == "timeout" {
-			lines = append(lines, l)
-		} else if strings.HasPrefix(l, "(error") {
-			lines = append(lines, "error:"+l)
-		}
-	}
-	hasErr := false
-	for _, l := range lines {
-		if strings.HasPrefix(l, "error:") {
-			hasErr = true
-			for _, i := range pending {
-				results[i].Raw = l
-			}
-		}
-	}
 	var rest []int
-	if !hasErr && len(lines) == len(pending) {
-		for k, i := range pending {
-			results[i].Status, results[i].Solver, results[i].Time = lines[k], "z3-new", per
-			if !results[i].OK() || lines[k] == "sat" && !tr.Obls[i].Cover {
+	var restMu sync.Mutex
+	var cwg sync.WaitGroup
+	for _, i := range pending {
+		cwg.Add(1)
+		go func(i int) {
+			defer cwg.Done()
+			opts.acquire()
+			defer opts.release()
+			file := filepath.Join(opts.TmpDir, fmt.Sprintf("p_%s_%d.smt2", tag, i))
+			os.WriteFile(file, []byte(base+"(assert "+tr.Obls[i].Cond+")\n(check-sat)\n"), 0o644)
+			defer os.Remove(file)
+			st, raw, d := runSolver(context.Background(), solvers[0], file, batchT)
+			results[i].Status, results[i].Solver, results[i].Time, results[i].Raw = st, "z3-new", d, firstLines(raw, 2)
+			if !results[i].OK() || st == "sat" && !tr.Obls[i].Cover {
+				restMu.Lock()
 				rest = append(rest, i)
+				restMu.Unlock()
 			}
-			if results[i].OK() && lines[k] != "unknown" {
-				continue
-			}
-		}
-	} else {
-		rest = pending
+		}(i)
 	}
-	os.Remove(file)
+	cwg.Wait()
+	sort.Ints(rest)
 	// phase 2: portfolio, one obligation at a time, in parallel
 	var wg sync.WaitGroup
 	names := inputNames(tr)
